@@ -124,6 +124,8 @@ func C07(ctx *core.Ctx, r *core.Report) {
 	c07NearMiss(ctx, r, regs)
 	c07NoWrites(ctx, r, regs)
 	c07Accumulate(ctx, r)
+	noValueTextEquality(ctx, r)
+	c07DepthFromBase(ctx, r)
 }
 
 // errReplaced: the error is tested and, when non-nil, replaced by another
